@@ -151,6 +151,14 @@ def c05_rules(m):
             # a statement with its label, starting in columns 1-5
             for text in ("30 return", "100 format (a)", "10 x = 1", " 20 continue", "1 i=2"):
                 cases.append(("labelled free", text, True))
+            # whole sources: only a directive that ends in a backslash is continued on the next line; a comment that ends in one is not
+            margin = "      x = 1"
+            cases.append(("comment ending in a backslash, then the only free-form line", "! see C:\\dir\\\nprogram p\n" + margin, True))
+            cases.append(("fixed-form comment ending in a backslash, then the only free-form line", "C path a\\\nend program\n" + margin, True))
+            cases.append(("statement ending in a backslash inside a literal, then a free-form line", margin + "\n      s = 'a\\'\nprogram p", True))
+            cases.append(("continued directive, its continuation line in column 1", "#define A \\\n  foo\n" + margin, False))
+            cases.append(("continued directive, then a free-form line", "#define A \\\n  foo\nprogram p\n" + margin, True))
+            cases.append(("two continued directive lines", "#define A \\\n  foo \\\n  bar\n" + margin, False))
             bad = {}
             for kind, text, want in cases:
                 r.instances += 1
